@@ -667,7 +667,7 @@ def t_new_rows_only(ev, outcome, exc, path, I):
     return True
 
 
-c = contract(E + "_set_attribute_on_managed_object").props('C15', 'C13')
+c = contract(E + "_set_attribute_on_managed_object").props('C15', 'C13', 'C03')
 c.scope('raises.unexpected', 'C13')
 c.args(self=ENGINE, managed_object=('dep', lambda a: mo_for(a['attribute'][0])), attribute=SET_PAIRS)
 c.let('__mo__', 'managed_object')
@@ -702,6 +702,12 @@ c.ensures("attribute[0] in ('Name', 'Application Specific Information', 'Object 
           "'Cryptographic Algorithm', 'Cryptographic Length', 'Cryptographic Usage Mask', "
           "'Operation Policy Name', 'Sensitive')", name="success-only-for-storable-attributes")
 c.trace("new-rows-only", t_new_rows_only)
+# C03 reads only the no-sharing clause off this contract (a stored row shared between objects of
+# different owners would let an authorised change of one object change the other)
+c.scope('trace.new-rows', 'C15', 'C03')
+c.scope('post.', 'C15')
+c.scope('frame', 'C15')
+c.scope('cover', 'C15', 'C13')
 c.modifies("managed_object.names", "managed_object.app_specific_info", "managed_object.object_groups",
            "managed_object.cryptographic_algorithm", "managed_object.cryptographic_length",
            "managed_object.cryptographic_usage_masks", "managed_object.operation_policy_name",
